@@ -1,5 +1,6 @@
 import MqttVerif.Proofs.Trans
 import MqttVerif.Proofs.Simp
+import MqttVerif.Proofs.Prim
 /-
   The handlers of the session layer preserve the invariant and raise nothing.
 -/
@@ -309,5 +310,267 @@ theorem refillW_inv {x : Option Nat} (p : Nat) (dup : Bool) (ppr : Proto) (fuel 
           have := ih hl (by rw [hp2]; exact hpp)
           exact ⟨this.1, by rw [this.2, hp2]⟩
       · exact ⟨h, rfl⟩
+
+/-! ### evaluation of the Step combinators -/
+
+theorem seq_ok {a b : Step} {w w1 : World} (h : a w = (w1, none)) : (a ;; b) w = b w1 := by
+  simp [Step.seq, h]
+
+@[simp] theorem read_apply (f : World → Step) (w : World) : Step.read f w = f w w := rfl
+@[simp] theorem mod_apply (f : World → World) (w : World) : Step.mod f w = (f w, none) := rfl
+@[simp] theorem ok_apply (w : World) : Step.ok w = (w, none) := rfl
+
+theorem cancelTimer_pending (w : World) (t : Nat) (k : TKind) (h : Pending w t k) :
+    cancelTimer t w = ({ w with timers := cancelT w t }, none) := by
+  obtain ⟨tm, a, b, _⟩ := h
+  simp [cancelTimer, a, b, cancelT]
+
+theorem fireDfd_unfired (w : World) (d : Nat) (o : Outcome) (h : d ∉ w.fired) :
+    fireDfd d o w = (fireD w d (.fired d o), none) := by
+  simp [fireDfd, h, Step.seq, emit, fireD, World.emit]
+
+/-- an in-flight request is settled: alarm cancelled, Deferred fired, entry removed (in any order) -/
+theorem settle_inv {x : Option Nat} {w : World} (h : WInvX x w) {e : Ent} (he : e ∈ w.ents) (hq : e.box ≠ .queue) {t d : Nat}
+    (ht : (w.req e.rid).alarm = some t) (hd : (w.req e.rid).dfd = some d) (o : Obs) :
+    WInvX x (fireD (dropArmed w e t) d o) := by
+  have h1 := dropArmed_inv h he hq ht
+  have hmem := dropArmed_mem h he hq t
+  have hdf := h.dfdFresh e he d hd
+  apply fireD_inv h1 hdf.1
+  · intro y hy hc
+    obtain ⟨hy1, hy2⟩ := (hmem y).mp hy
+    exact hy2 (h.dfdInj y hy1 e he d hc hd)
+  · intro t' cr c hp hc hcd
+    have hp' : Pending w t' (.connack cr) := by
+      obtain ⟨_, _, _, hpe, _⟩ := h.alarm e he t ht
+      obtain ⟨tm, htm, _, _⟩ := hpe
+      exact ((pending_cancelT htm t' _ _ rfl).mp hp).1
+    obtain ⟨c', d', a1, a2, a3, _⟩ := h.connackOwned t' cr hp'
+    have hc' : w.connReqs.get? cr = some c := hc
+    rw [a1] at hc'; injection hc' with hc'; subst hc'
+    rw [a2] at hcd; injection hcd with hcd; subst hcd
+    exact (h.connReq cr c' d' a1 a2 a3).2.2 e he hd
+
+/-- MQTTProtocol.handlePUBACK on a connected, live protocol: no exception, invariant preserved -/
+theorem handlePUBACK_inv {w : World} (h : WInv w) (p : Nat) (ppr : Proto) (hpp : w.protos.get? p = some ppr)
+    (hlive : ppr.lost = false) (hconn : ppr.state = .connected) (m : Nat) :
+    (handlePUBACK p m w).2 = none ∧ WInv (handlePUBACK p m w).1 := by
+  have hpa : w.paddr p = ppr.addr := by simp [World.paddr, getD_of_get? hpp]
+  simp only [handlePUBACK, read_apply, hpa]
+  cases hl : Ents.lookup w.ents ppr.addr .pub m with
+  | none => exact ⟨rfl, h⟩
+  | some rid =>
+    simp only
+    have he := Ents.lookup_some hl
+    have hq : (⟨ppr.addr, .pub, m, rid⟩ : Ent).box ≠ .queue := by simp
+    have hal := h.connected p ppr hpp (by simp) hlive hconn _ he rfl hq
+    obtain ⟨t, ht⟩ : ∃ t, (w.req rid).alarm = some t := by
+      cases ha : (w.req rid).alarm with
+      | none => exact absurd ha hal
+      | some t => exact ⟨t, rfl⟩
+    obtain ⟨_, p0, _, hpe, _⟩ := h.alarm _ he t ht
+    have hk := h.keyId _ he hq
+    obtain ⟨d, hd⟩ : ∃ d, (w.req rid).dfd = some d := by
+      cases hdd : (w.req rid).dfd with
+      | none => exact absurd hdd (h.dfdSome _ he (by rw [hk.1]; exact hk.2))
+      | some d => exact ⟨d, rfl⟩
+    have hdf := h.dfdFresh _ he d hd
+    have s1 : cancelAlarm (w.req rid).alarm w = ({ w with timers := cancelT w t }, none) := by
+      rw [ht]; exact cancelTimer_pending w t _ hpe
+    rw [seq_ok s1]
+    have s2 : fireReqDfd (w.req rid).dfd (.ok (.int (w.req rid).msgId)) { w with timers := cancelT w t }
+        = (fireD { w with timers := cancelT w t } d (.fired d (.ok (.int (w.req rid).msgId))), none) := by
+      rw [hd]; exact fireDfd_unfired _ d _ hdf.2
+    rw [seq_ok s2]
+    have s3 : setEnts (fun es => Ents.remove es ppr.addr .pub m) (fireD { w with timers := cancelT w t } d (.fired d (.ok (.int (w.req rid).msgId))))
+        = (fireD (dropArmed w ⟨ppr.addr, .pub, m, rid⟩ t) d (.fired d (.ok (.int (w.req rid).msgId))), none) := rfl
+    rw [seq_ok s3]
+    have hS := settle_inv h he hq ht hd (.fired d (.ok (.int (w.req rid).msgId)))
+    exact ⟨rfl, (refillW_inv (x := none) p false ppr _ hS hpp).1⟩
+
+/-- what is known about an entry found in a window of a connected, live protocol -/
+theorem window_entry_facts {w : World} (h : WInv w) (p : Nat) (ppr : Proto) (hpp : w.protos.get? p = some ppr)
+    (hlive : ppr.lost = false) (hconn : ppr.state = .connected) {e : Ent} (he : e ∈ w.ents) (hea : e.addr = ppr.addr)
+    (hq : e.box ≠ .queue) :
+    ∃ t d p0, (w.req e.rid).alarm = some t ∧ Pending w t (.retry p0 e.rid) ∧ (w.req e.rid).dfd = some d ∧ d ∉ w.fired ∧
+      (w.req e.rid).msgId = e.key := by
+  have hal := h.connected p ppr hpp (by simp) hlive hconn e he hea hq
+  obtain ⟨t, ht⟩ : ∃ t, (w.req e.rid).alarm = some t := by
+    cases ha : (w.req e.rid).alarm with
+    | none => exact absurd ha hal
+    | some t => exact ⟨t, rfl⟩
+  obtain ⟨_, p0, _, hpe, _⟩ := h.alarm e he t ht
+  have hk := h.keyId e he hq
+  obtain ⟨d, hd⟩ : ∃ d, (w.req e.rid).dfd = some d := by
+    cases hdd : (w.req e.rid).dfd with
+    | none => exact absurd hdd (h.dfdSome e he (by rw [hk.1]; exact hk.2))
+    | some d => exact ⟨d, rfl⟩
+  exact ⟨t, d, p0, ht, hpe, hd, (h.dfdFresh e he d hd).2, hk.1⟩
+
+/-- MQTTProtocol.handlePUBCOMP -/
+theorem handlePUBCOMP_inv {w : World} (h : WInv w) (p : Nat) (ppr : Proto) (hpp : w.protos.get? p = some ppr)
+    (hlive : ppr.lost = false) (hconn : ppr.state = .connected) (m : Nat) :
+    (handlePUBCOMP p m w).2 = none ∧ WInv (handlePUBCOMP p m w).1 := by
+  have hpa : w.paddr p = ppr.addr := by simp [World.paddr, getD_of_get? hpp]
+  simp only [handlePUBCOMP, read_apply, hpa]
+  cases hl : Ents.lookup w.ents ppr.addr .rel m with
+  | none => exact ⟨rfl, h⟩
+  | some rid =>
+    simp only
+    have he := Ents.lookup_some hl
+    have hq : (⟨ppr.addr, .rel, m, rid⟩ : Ent).box ≠ .queue := by simp
+    obtain ⟨t, d, p0, ht, hpe, hd, hnf, hkey⟩ := window_entry_facts h p ppr hpp hlive hconn he rfl hq
+    simp only at ht hpe hd hkey
+    have s1 : cancelAlarm (w.req rid).alarm w = ({ w with timers := cancelT w t }, none) := by
+      rw [ht]; exact cancelTimer_pending w t _ hpe
+    rw [seq_ok s1]
+    have s2 : fireReqDfd (w.req rid).dfd (.ok (.int (w.req rid).msgId)) { w with timers := cancelT w t }
+        = (fireD { w with timers := cancelT w t } d (.fired d (.ok (.int (w.req rid).msgId))), none) := by
+      rw [hd]; exact fireDfd_unfired _ d _ hnf
+    rw [seq_ok s2]
+    have s3 : setEnts (fun es => Ents.remove es ppr.addr .rel (w.req rid).msgId) (fireD { w with timers := cancelT w t } d (.fired d (.ok (.int (w.req rid).msgId))))
+        = (fireD (dropArmed w ⟨ppr.addr, .rel, m, rid⟩ t) d (.fired d (.ok (.int (w.req rid).msgId))), none) := by
+      rw [hkey]; rfl
+    rw [seq_ok s3]
+    have hS := settle_inv h he hq ht hd (.fired d (.ok (.int (w.req rid).msgId)))
+    exact ⟨rfl, (refillW_inv (x := none) p false ppr _ hS hpp).1⟩
+
+/-- MQTTProtocol.handleSUBACK / handleUNSUBACK -/
+theorem handleSubUnsubAck_inv {w : World} (h : WInv w) (p : Nat) (ppr : Proto) (hpp : w.protos.get? p = some ppr)
+    (hlive : ppr.lost = false) (hconn : ppr.state = .connected) (isSub : Bool) (m : Nat) (v : Val) :
+    (handleSubUnsubAck p isSub m v w).2 = none ∧ WInv (handleSubUnsubAck p isSub m v w).1 := by
+  have hpa : w.paddr p = ppr.addr := by simp [World.paddr, getD_of_get? hpp]
+  simp only [handleSubUnsubAck, read_apply, hpa]
+  generalize hbox : (if isSub = true then Box.sub else Box.unsub) = box
+  have hbq : box ≠ .queue := by cases isSub <;> simp at hbox <;> subst hbox <;> simp
+  cases hl : Ents.lookup w.ents ppr.addr box m with
+  | none => exact ⟨rfl, h⟩
+  | some rid =>
+    simp only
+    have he := Ents.lookup_some hl
+    have hq : (⟨ppr.addr, box, m, rid⟩ : Ent).box ≠ .queue := hbq
+    obtain ⟨t, d, p0, ht, hpe, hd, hnf, hkey⟩ := window_entry_facts h p ppr hpp hlive hconn he rfl hq
+    simp only at ht hpe hd hkey
+    have s1 : setEnts (fun es => Ents.remove es ppr.addr box m) w = (w.setEnts fun es => Ents.remove es ppr.addr box m, none) := rfl
+    rw [seq_ok s1]
+    have hp1 : Pending (w.setEnts fun es => Ents.remove es ppr.addr box m) t (.retry p0 rid) := hpe
+    have s2 : cancelAlarm (w.req rid).alarm (w.setEnts fun es => Ents.remove es ppr.addr box m)
+        = (dropArmed w ⟨ppr.addr, box, m, rid⟩ t, none) := by
+      rw [ht]; exact cancelTimer_pending _ t _ hp1
+    rw [seq_ok s2]
+    have s3 : fireReqDfd (w.req rid).dfd (.ok v) (dropArmed w ⟨ppr.addr, box, m, rid⟩ t)
+        = (fireD (dropArmed w ⟨ppr.addr, box, m, rid⟩ t) d (.fired d (.ok v)), none) := by
+      rw [hd]; exact fireDfd_unfired _ d _ hnf
+    rw [s3]
+    exact ⟨rfl, settle_inv h he hq ht hd _⟩
+
+theorem encodeAck_ok (hdr m : Nat) (hm : m < 65536) : ∃ bs, encodeAck hdr (m : Int) = .ok bs := by
+  refine ⟨[hdr] ++ encodeLength 2 ++ enc16 m, ?_⟩
+  unfold encodeAck; rw [encode16_ok m hm]; rfl
+
+/-- MQTTProtocol.handlePUBREC: the QoS 2 exchange moves from the publish window to the release window -/
+theorem handlePUBREC_inv {w : World} (h : WInv w) (p : Nat) (ppr : Proto) (hpp : w.protos.get? p = some ppr)
+    (hlive : ppr.lost = false) (hconn : ppr.state = .connected) (m : Nat) (hm : m < 65536) :
+    (handlePUBREC p m w).2 = none ∧ WInv (handlePUBREC p m w).1 := by
+  have hpa : w.paddr p = ppr.addr := by simp [World.paddr, getD_of_get? hpp]
+  obtain ⟨bs, hbs⟩ := encodeAck_ok 0x62 m hm
+  have hbs' : encodePUBREL (m : Int) = .ok bs := hbs
+  -- (the encoder call is abstracted before any rewriting: the kernel must never evaluate `m > 65535`)
+  unfold handlePUBREC
+  generalize hE : encodePUBREL (m : Int) = E
+  rw [hbs'] at hE; subst hE
+  simp only [read_apply, hpa]
+  cases hl : Ents.lookup w.ents ppr.addr .pub m with
+  | none => exact ⟨rfl, h⟩
+  | some rid =>
+    simp only
+    have he := Ents.lookup_some hl
+    have hq : (⟨ppr.addr, .pub, m, rid⟩ : Ent).box ≠ .queue := by simp
+    obtain ⟨t, d, p0, ht, hpe, hd, hnf, hkey⟩ := window_entry_facts h p ppr hpp hlive hconn he rfl hq
+    simp only at ht hpe hd hkey
+    have s1 : cancelAlarm (w.req rid).alarm w = ({ w with timers := cancelT w t }, none) := by
+      rw [ht]; exact cancelTimer_pending w t _ hpe
+    rw [seq_ok s1]
+    have s2 : setEnts (fun es => Ents.remove es ppr.addr .pub m) { w with timers := cancelT w t }
+        = (dropArmed w ⟨ppr.addr, .pub, m, rid⟩ t, none) := rfl
+    rw [seq_ok s2]
+    simp only [read_apply]
+    let wd := dropArmed w ⟨ppr.addr, .pub, m, rid⟩ t
+    have hwd := dropArmed_inv h he hq ht
+    have hmem := dropArmed_mem h he hq t
+    have hk := h.keyId _ he hq
+    have hdf := h.dfdFresh _ he d hd
+    let nr : Req := { kind := .pubrel, msgId := m, qos := (w.req rid).qos, encoded := bs, dfd := (w.req rid).dfd, alarm := none,
+                      initial := ppr.initialT, ivValue := ppr.initialT, ivK := 1, bandwith := 1, factor := 1, seq := (w.req rid).seq }
+    have hidf : ∀ y ∈ wd.ents, idOf wd y ≠ m := by
+      intro y hy hc
+      obtain ⟨hy1, hy2⟩ := (hmem y).mp hy
+      exact hy2 (h.idUnique y hy1 _ he (by rw [show idOf w y = m from hc]; simp [idOf]) (by rw [show idOf w y = m from hc]; exact hk.2))
+    have hA := addWindow_inv hwd ppr.addr .rel m w.nextReq { nr with alarm := some w.nextTimer } p 0 (w.nextReq + 1) w.nextDfd []
+      (fun y hy hc => by have := h.ridFresh y ((hmem y).mp hy).1; omega)
+      (Nat.lt_succ_self _) (Nat.le_succ _) (Nat.le_refl _)
+      (by
+        intro t' q hp
+        obtain ⟨y, hy, hy1, _⟩ := hwd.noStale t' q _ hp
+        have := h.ridFresh y ((hmem y).mp hy).1
+        omega)
+      (by simp) rfl hk.2 hidf rfl d hd hdf.1 hdf.2
+      (by
+        intro y hy hc
+        obtain ⟨hy1, hy2⟩ := (hmem y).mp hy
+        exact hy2 (h.dfdInj y hy1 _ he d hc hd))
+      (by
+        intro cr c hc hcd
+        exact (h.connReq cr c d hc hcd hdf.2).2.2 _ he hd)
+      ppr hpp rfl
+    -- the release window has no entry under this identifier yet
+    have hlook : Ents.lookup wd.ents ppr.addr .rel m = none := by
+      cases hl2 : Ents.lookup wd.ents ppr.addr .rel m with
+      | none => rfl
+      | some r2 => exact absurd (by simp [idOf]) (hidf _ (Ents.lookup_some hl2))
+    have hins : Ents.insert wd.ents ppr.addr .rel m w.nextReq = wd.ents ++ [⟨ppr.addr, .rel, m, w.nextReq⟩] :=
+      Ents.insert_of_lookup_none _ hlook
+    -- the world the PUBREL is first transmitted in
+    let w4 : World := { wd with reqs := wd.reqs.set w.nextReq nr, nextReq := w.nextReq + 1,
+                                ents := wd.ents ++ [⟨ppr.addr, .rel, m, w.nextReq⟩] }
+    have key : ∀ (X : World × Option Err), X = (retryReleaseW p w.nextReq false w4, none) →
+        SameCore (addWindow wd ppr.addr .rel m w.nextReq { nr with alarm := some w.nextTimer } p 0 (w.nextReq + 1) w.nextDfd []) (retryReleaseW p w.nextReq false w4) →
+        X.2 = none ∧ WInv X.1 := by
+      intro X hX hs; subst hX; exact ⟨rfl, hA.sameCore hs⟩
+    apply key
+    · have hpi : (wd.proto p).initialT = ppr.initialT := by
+        show (w.proto p).initialT = _; rw [getD_of_get? hpp]
+      have hpa' : (dropArmed w ⟨ppr.addr, .pub, m, rid⟩ t).paddr p = ppr.addr := hpa
+      have hpi' : ((dropArmed w ⟨ppr.addr, .pub, m, rid⟩ t).proto p).initialT = ppr.initialT := hpi
+      have hins' : Ents.insert (dropArmed w ⟨ppr.addr, .pub, m, rid⟩ t).ents ppr.addr .rel m (dropArmed w ⟨ppr.addr, .pub, m, rid⟩ t).nextReq
+          = (dropArmed w ⟨ppr.addr, .pub, m, rid⟩ t).ents ++ [⟨ppr.addr, .rel, m, w.nextReq⟩] := hins
+      simp only [Step.seq, mod_apply, setEnts, retryRelease, World.setEnts]
+      rw [hpa', hpi', hins']
+      rfl
+    have hA1 : ∀ r, (addWindow wd ppr.addr .rel m w.nextReq { nr with alarm := some w.nextTimer } p 0 (w.nextReq + 1) w.nextDfd []).req r
+        = if w.nextReq = r then { nr with alarm := some w.nextTimer } else w.req r := fun r => req_set wd w.nextReq _ r _ rfl
+    have h4req : ∀ r, w4.req r = if w.nextReq = r then nr else w.req r := fun r => req_set wd w.nextReq _ r _ rfl
+    apply sameCore_of
+    · simp only [retryReleaseW]; split <;> simp [addWindow, w4]
+    · intro r
+      rw [hA1]
+      simp only [retryReleaseW]
+      split <;>
+      · simp only [emit_req, req_setReq, callLater_req, h4req]
+        by_cases hr : w.nextReq = r
+        · subst hr; simp [nr, w4]; rfl
+        · simp [hr]
+    · intro t'
+      simp only [retryReleaseW]
+      split <;>
+      · simp only [emit_timers, setReq_timers, callLater_timers, setReq_nextTimer, addWindow, addT, Dict.get?_set, w4]
+        by_cases ht' : w.nextTimer = t'
+        · have : wd.nextTimer = t' := ht'
+          simp [ht', this]
+        · have : ¬ wd.nextTimer = t' := ht'
+          simp only [ht', this, ↓reduceIte]
+    all_goals first
+      | (simp only [retryReleaseW]; split <;> first | rfl | simp [addWindow, w4, wd, dropArmed, h.idCounter])
+      | exact hA.idCounter
 
 end Mqtt
